@@ -456,6 +456,69 @@ def hint_cases(thorough):
     return cases
 
 
+def tie_cases(thorough):
+    """round 5: MultiMap::insert(position, key, value) with the key of the hinted element <= key and the key
+    of the element behind it == key (the landing place inside the following run of equal keys depends on the
+    tree shape): runs of 1..5 (thorough: 8) equal keys behind 0 / 1 / 3 smaller keys and in front of 0 / 2
+    greater ones, built in ascending / descending / inside-out insertion order (different tree shapes), every
+    hint position that meets the case, literal and own-element arguments; then the map is used on"""
+    cases = []
+    for before in (0, 1, 3):
+        for run in [1, 2, 3, 5] + ([8] if thorough else []):
+            for after in (0, 2):
+                keys = [10 * (i + 1) for i in range(before)] + [50] * run + [60 + 10 * i for i in range(after)]
+                n = len(keys)
+                idx = list(range(n))
+                orders = [idx, idx[::-1], idx[n // 2:] + idx[:n // 2][::-1]]
+                for order in orders:
+                    # equal keys are linked behind the ones already there: tag values by insertion, the hint index is by position
+                    base = ['new 0 multimap'] + ['ins 0 b %d %d' % (keys[i], i) for i in order]
+                    for h in range(max(before - 1, 0), before + run - 1):
+                        if keys[h] <= 50 and keys[h + 1] == 50:
+                            cases.append(base + ['inshint 0 %d 50 7' % h, 'find 0 50', 'inshint 0 %d k0.%d v0.%d' % (h, h + 1, h),
+                                                 'remat 0 %d' % (h + 1), 'inshint 0 %d 50 8' % h, 'copy 1 0', 'remkey 0 50', 'inshint 1 %d k0.%d v1.0' % (h, min(h + 1, n - 1)),
+                                                 'del 0', 'inshint 1 %d 50 9' % h])
+                    if before:
+                        cases.append(base + ['inshint 0 f %d 1' % keys[1] if n > 1 else 'inshint 0 f 50 1', 'inshint 0 %d 50 2' % (before - 1),
+                                             'inshint 0 %d 50 3' % (before - 1), 'inshint 0 %d k0.%d v0.%d' % (before, before, before), 'asg 0 0', 'clear 0'])
+    return cases
+
+
+def large_cases(thorough):
+    """round 5: element counts just below / at / above 2^8 (a count or index kept in a narrower integer type
+    shows here): Array filled through append(buffer, 60) to 255 / 256 / 257 elements, then own elements
+    appended, removal at the last indices, resize across the boundary, append(&a[i], n) of the whole array,
+    copy / assignment / self-append; List of 257 elements sorted (pseudo-random payloads), copied, own element
+    re-inserted; the node kinds filled to 257 items, copied, assigned, last items removed, cleared.  (2^15 /
+    2^16 elements are out of reach of the extracted model, whose heap is an association list.)"""
+    cases = []
+    def arr(n, x=0):
+        out = ['new %d array' % x]
+        for i in range(0, n, 60):           # a line of the case file has at most 64 tokens
+            out.append('appvals %d %s' % (x, ' '.join(str((7 * j) % 10) for j in range(i, min(i + 60, n)))))
+        return out
+    cases.append(arr(255) + ['ins 0 b - v0.0', 'ins 0 b - v0.255', 'remat 0 256', 'rematit 0 255', 'resize 0 258 v0.254', 'resize 0 255 1',
+                             'apprange 0 0 0 255', 'rempop 0 b', 'find 0 v0.508'])
+    cases.append(arr(256) + ['copy 1 0', 'asg 1 1', 'addall 1 b 0', 'remat 1 256', 'apprange 1 1 255 256', 'swap 0 1', 'clear 1', 'asg 1 0', 'del 0'])
+    cases.append(arr(257) + ['reserve 0 300', 'apprange 0 0 1 256', 'rempop 0 b', 'resize 0 256 v0.0', 'resize 0 258 v0.255', 'find 0 v0.257', 'addall 0 b 0'])
+    vals = [(37 * i + 11) % 101 for i in range(257)]
+    cases.append(['new 0 list'] + ['ins 0 b - %d' % z for z in vals] + ['sort 0', 'ins 0 f - v0.256', 'copy 1 0', 'remat 1 256', 'rempop 0 b', 'sort 1', 'addall 1 b 0'])
+    if not thorough:
+        cases = [cases[0], cases[2]]      # the extracted model (unary instance ids) needs 5-60 s per case of this size
+    kinds = ['map', 'hashmap', 'poolmap', 'multimap', 'hashset', 'poollist'] if thorough else ['poolmap']
+    for kind in kinds:
+        ka = lambda z: str(z) if kind in HAS_KEY else '-'
+        va = lambda z: str(z % 10) if kind in NEED_VAL else '-'
+        base = ['new 0 %s' % kind] + ['ins 0 b %s %s' % (ka((53 * i) % 1009), va(i)) for i in range(257)]
+        tail = ['remat 0 256', 'rempop 0 b', 'ins 0 b %s %s' % ('k0.254' if kind in HAS_KEY else '-', 'v0.0' if kind in NEED_VAL else '-')]
+        if kind in COPYABLE:
+            tail += ['copy 1 0', 'asg 1 1', 'remat 1 254', 'asg 0 1', 'del 1']
+        else:
+            tail += ['new 1 %s' % kind, 'swap 0 1', 'swap 0 1']
+        cases.append(base + tail + ['clear 0', 'ins 0 b %s %s' % (ka(1), va(1))])
+    return cases
+
+
 def emplace_cases():
     """PoolList::append(a1..an), n = 0..7 (and 8: not offered), at list sizes around the item-block
     size and with free slots; the arguments are integers or references to the list's own elements
@@ -642,9 +705,21 @@ class C04(Check):
         'instances afterwards, the set of live instances is unchanged and the content is the sorted permutation of the old one '
         '(quicksort correctness is proved, with fuel = length); hinted_insert_is_plain_insert: on a reachable state the hinted insert is '
         'the same computation (same events, same result) as insert(key, value), whatever the hint; find_refines_spec: find returns the '
-        'first element with that key / value. The model is tied to the code by running the extracted '
+        'first element with that key / value. Round 5 - two more operations, covered by all theorems: OInsVia (List::prepend / '
+        'append(value), HashMap::prepend / append(key, value), HashSet::prepend / append(key), PoolMap::append(key); '
+        'wrappers_are_front_back_insert: the same computation as the positional insert) and OInsTie, the one MultiMap hinted insert '
+        'that OInsHint leaves out (key of the hinted element <= key, key of the element behind it == key): the offset j at which the '
+        'new element lands inside the following run of equal keys is an INPUT of the operation (it stands for the tree shape); the '
+        'spec accepts exactly the offsets that keep the keys in ascending order; tie_insert_position_only: for EVERY j the call does '
+        'to the world what insert(key, value) does (same events in the same order, same instances and allocations), only the place '
+        'of the new node differs. stored_instances_counted: between operations the live instances are one per stored element and '
+        'per stored key (sstored, the number the spec oracle prints) plus what the containers keep for themselves (sbase). '
+        'The model is tied to the code by running the extracted '
         'model, the extracted spec and an ASan/UBSan build of the working tree on the same histories with an element type that owns a heap '
-        'cell and registers every construction, copy, assignment and destruction: contents, number of live instances, the ordered event '
+        'cell, remembers the ADDRESS it was constructed at (a bitwise-relocated instance is not a live one) and registers every '
+        'construction, copy, assignment and destruction: contents, number of instances the contents account for (live instances '
+        'minus what an empty container of each kind holds - measured by the harness at start-up), registry anomalies (observable '
+        'section, compared with the spec); all live instances, the ordered event '
         'list of every operation (instance ids, allocation serials from ASan\'s malloc hooks), capacity() and free-list lengths are compared '
         'line by line; sanitizer reports, registry anomalies and the watchdog are observations.')
     level_note = (
@@ -654,29 +729,45 @@ class C04(Check):
         'collide / collide-random use keys that share a bucket); reads made by comparisons are checked for liveness but not logged; reading the '
         '`next` field of a just-destroyed item (HashSet::remove(set) on itself, clear()) is outside the model. "No memory is leaked or freed '
         'twice" is proved for the model\'s allocations (Array storage, item blocks, hash tables); below that (the allocator) it is the '
-        'observation of ASan and of the harness ledger on the explored histories. live_instances_counted: the expected count (slive) uses two '
-        'implementation facts that the property text does not fix - the number of instances in the embedded end item and the fields per item; '
-        'they are defined next to the model (LifeModel.v), not in the spec. One model function serves several entry points of the code: '
+        'observation of ASan and of the harness ledger on the explored histories. Instance counts: the spec oracle states `stored=` (one '
+        'instance per stored element and per stored key, sstored in LifeSpec.v); how many instances a container keeps for itself (the '
+        'element inside the embedded end item: sent_count / sbase, LifeModel.v) is an implementation fact - it only appears in the model '
+        'section (`live=`), so a rewrite that changes it (mutants/C04/A2-03) is reported as a correspondence difference without a '
+        'failing input; the harness subtracts what it measured on an empty container, so an implementation whose spare instances vary '
+        'over time would still be flagged. One model function serves several entry points of the code: '
         'Array::remove(index) / remove(const Iterator&) / removeFront / removeBack, and remove(iterator) / removeFront / removeBack of the '
         'node containers (ops remat, rematit, rempop; all driven). Third round: HashMap/HashSet/PoolMap(capacity) are modelled as the default '
         'constructor (the number of buckets is not part of the model; the streams use 0..3 buckets so that every chain operation meets '
         'collisions). Hinted insert: the model states WHERE insert(&cell, parent, ..) started at a child cell of the hinted item links the '
         'new item (immediately before / behind it) - this rests on the search-tree invariants of C01/C02 and is checked differentially; the '
         'one call whose result depends on the tree shape (MultiMap, key of the hinted item <= key and key of the item behind it == key: the '
-        'new item lands somewhere inside the following run of equal keys) is excluded by the spec (hint_tie), by the model and by the harness '
-        'and is NOT driven. Map::insert(const Map&): the hint (the iterator returned by the previous insertion) is found again in the model '
+        'new item lands somewhere inside the following run of equal keys) is not an OInsHint (hint_tie); since round 5 it IS driven, as '
+        'OInsTie: the harness makes the call and reports the offset at which the new element landed (` tie=j`, model section), the check '
+        'hands that j to model and spec as an input of the operation (case files and replays keep the plain `inshint` line; the offset is '
+        'taken afresh from every run of the implementation), the spec accepts only an offset that keeps the keys in order, and contents, '
+        'events, instance ids and counts are compared as for every other operation. Which of the admissible offsets the tree produces is '
+        'C01\'s business and not checked here. The wrappers prepend / append(key[, value]) are driven through their own op (insw, '
+        'OInsVia) whose model is the positional insert at the front / the back - PoolMap has no prepend, Map / MultiMap / Array / PoolList '
+        'have none of them (not performed). Map::insert(const Map&): the hint (the iterator returned by the previous insertion) is found again in the model '
         'by looking up the previous key. find: modelled as liveness-checked reads of the argument and of all keys (the code stops at the '
         'match; tree / bucket navigation not modelled); the returned iterator is compared as the index of the element found. '
         'PoolList::append(a1..an): driven with arguments of one POD type (an integer or a pointer to a stored element) that the element '
         'type\'s n-ary constructors read in order; by-value class-type arguments of arity >= 2 (copies made by the caller in an order the '
-        'language leaves open) are not driven. List::sort is driven on lists of up to 16 (thorough: 33) elements. Still not '
+        'language leaves open) are not driven. List::sort is driven on lists of up to 16 (thorough: 33) elements, and once on 257. Sizes: '
+        'the stream `large` reaches 255 / 256 / 257 elements (a count or index narrowed to 8 bits shows: mutants/C04/30); 2^15 / 2^16 '
+        'elements are NOT reached - the extracted model keeps instance ids as unary numbers and its heap as an association list (a case '
+        'with 1024 elements needs 40 s, the cost grows cubically), so a slip at 16 or 32 bits is invisible to this check (C03 drives '
+        'Array / List sizes at those boundaries on plain ints). Array::resize(n) with the default argument T() is not called here (C03 '
+        'calls it). A tree on which nearly every case crashes: a stream stops after 150 crashes / timeouts, after 450 in total every '
+        'further stream runs its first 16 cases only (measured: an Array() that always crashes ends in under 7 minutes). Still not '
         'driven / not modelled: iterators returned by the mutating calls, MultiMap::count, contains (= find), operator== / != of the '
         'containers, Array::operator T*, front() / back() other than through the element references the ops take.')
     rule = (
         'cases = histories over 3 container variables of one kind (new / del / copy-construct / assign / swap / clear / insert with value or '
         'own-element references / remove at index or iterator / Array::remove(Iterator) / removeFront / removeBack / remove key / add-all / '
         'remove-all / reserve / resize / Array::append(pointer into an array - mostly its own -, n) / (capacity) constructors / find / sort / '
-        'hinted insert / PoolList::append(a1..an) / Array::append(foreign buffer, n)). Streams: corpus witnesses; random '
+        'hinted insert (incl. the MultiMap tie case) / PoolList::append(a1..an) / Array::append(foreign buffer, n) / prepend and append(key[, value]) '
+        'of List, HashMap, HashSet, PoolMap). Streams: corpus witnesses; random '
         'mostly-valid histories per kind with 25% element-reference arguments and 40% self arguments; a malformed stream (dead variables, '
         'out-of-range indices and ranges, wrong-typed references, mixed kinds); random histories of the hash-table kinds with keys that share '
         'buckets (1, 501, 1001, 1501 / 2, 502 at 500 buckets); a collision stream (every insertion order of 3 (thorough: 4) colliding keys, '
@@ -691,8 +782,15 @@ class C04(Check):
         'Map::insert(Map) with interleaved / contained / containing / the same map); an emplace stream (PoolList::append with 0..8 '
         'arguments, integers or own elements, at sizes around the item-block size and with free slots); a capacity stream (Array(c), '
         'c = 0..7, grown to / at / past c with own elements, copied / assigned / swapped while it has no storage; table kinds with 0..3 '
-        'buckets through every removing entry point, swapped with default-constructed ones); exhaustive histories of depth 3 '
-        '(thorough: depth 4) for every kind over a 13-20 op alphabet (table kinds: the two keys collide; the third-round ops are in the '
+        'buckets through every removing entry point, swapped with default-constructed ones); round 5: a wrappers stream (prepend / '
+        'append(key[, value]) of List / HashMap / HashSet / PoolMap with the container\'s own first / middle / last key and / or value, '
+        'present and absent keys, colliding keys, sizes around the item-block size; half of the front / back insertions of the random '
+        'streams and of the collision stream also go through the wrappers), a hint-tie stream (MultiMap runs of 1..5 (thorough: 8) equal '
+        'keys behind 0 / 1 / 3 smaller and in front of 0 / 2 greater keys, built in three insertion orders = three tree shapes, every '
+        'hint that meets the tie case, literal and own-element arguments, landing offsets 0..7 observed), a large stream (Array of 255 / '
+        '257 (thorough: also 256) elements: own elements appended, removal at the last indices, resize and append(&a[i], n) across 2^8; '
+        'PoolMap (thorough: every node kind, List::sort) with 257 items); exhaustive histories of depth 3 '
+        '(thorough: depth 4) for every kind over a 13-21 op alphabet (table kinds: the two keys collide; the third-round ops are in the '
         'alphabets). A case is non-trivial when the '
         'implementation performed at least 4 operations and constructed at least 3 element instances; distinct = distinct op text.')
     assumptions = ['element type: copy constructor / assignment read the source before writing, destructor releases the owned cell '
@@ -704,28 +802,98 @@ class C04(Check):
                    'buffer of n live elements that the harness constructs before and destroys (in reverse order) after the call',
                    'PoolList::append(a1..an): the element type has constructors T(Src, ..., Src) for 1..7 arguments, Src = {pointer to an '
                    'element or 0, int}; they read their arguments in order and store the sum',
-                   'List::sort: the element type\'s operator< reads both operands (liveness-checked, not logged)']
+                   'List::sort: the element type\'s operator< reads both operands (liveness-checked, not logged)',
+                   'the element type is address-sensitive: an instance counts as live only at the address it was constructed at, so a '
+                   'container must move elements by copy construction + destruction (what the headers do), not bitwise',
+                   'MultiMap hinted insert, tie case: the landing offset inside the run of equal keys is taken from the implementation\'s '
+                   'own run and is an input of model and spec (any offset that keeps the keys sorted is accepted)']
 
     def nontrivial(self, case, obs):
         oks = sum(1 for l in obs if l.startswith('ok'))
         made = sum(len(re.findall(r'[VCD]\d+', l.split(' | ')[2])) for l in obs if l.count(' | ') >= 2)
         return oks >= 4 and made >= 3
 
+    # a tree on which (nearly) every case crashes or hangs: give up early and report what there is
+    CRASH_STREAM = 150      # crashes / timeouts after which the rest of a stream is not run
+    CRASH_TOTAL = 450       # ... after which every further stream runs its first cases only
+
     def run_impl(self, cases, tag='impl'):
-        """the watchdog also fires when the machine stalls: a timeout counts only if it repeats"""
-        res, crashes = Check.run_impl(self, cases, tag)
-        if len(cases) > 1:
-            for i, o in enumerate(res):
-                if o and o[-1].startswith(('! timeout', '! killed')):
+        """the stream is run in chunks so that the crash count is seen in time; the watchdog also fires when
+        the machine stalls: an isolated timeout counts only if it repeats"""
+        if len(cases) <= 1:
+            res, crashes = Check.run_impl(self, cases, tag)
+            self.note_ties(cases, res)
+            return res, crashes
+        total = getattr(self, '_crashes_seen', 0)
+        res, crashes = [], {}
+        pos, chunk, mine = 0, (256 if total < self.CRASH_TOTAL else 16), 0
+        while pos < len(cases):
+            if pos and (mine >= self.CRASH_STREAM or total + mine >= self.CRASH_TOTAL):
+                log('[%s] %s: %d crashes / timeouts in this stream, %d so far - the remaining %d cases are not run' % (
+                    self.id, tag, mine, total + mine, len(cases) - pos))
+                res += [['! notrun'] for _ in range(len(cases) - pos)]
+                break
+            part = cases[pos:pos + chunk]
+            r, c = Check.run_impl(self, part, tag)
+            touts = [i for i, o in enumerate(r) if o and o[-1].startswith(('! timeout', '! killed'))]
+            if len(touts) <= 2:
+                for i in touts:
                     for _ in range(2):
-                        o2, c2 = Check.run_impl(self, [cases[i]], 'retry_' + tag)
+                        o2, c2 = Check.run_impl(self, [part[i]], 'retry_' + tag)
                         if not (o2[0] and o2[0][-1].startswith(('! timeout', '! killed'))):
-                            res[i] = o2[0]
-                            crashes.pop(i, None)
+                            r[i] = o2[0]
+                            c.pop(i, None)
                             if 0 in c2:
-                                crashes[i] = c2[0]
+                                c[i] = c2[0]
                             break
+            for k, v in c.items():
+                crashes[pos + k] = v
+            res += r
+            mine += len(c)
+            pos += len(part)
+            chunk = 64 if c else min(chunk * 4, 1 << 20)
+        self._crashes_seen = total + mine
+        self.note_ties(cases, res)
         return res, crashes
+
+    # MultiMap::insert(position, key, value) in the case whose landing place depends on the shape of the search
+    # tree (C01): the implementation reports how far behind the hinted element the new one was linked
+    # (` tie=<j>` at the end of the model section); model and spec take that offset as an INPUT of the operation
+    # (`instie x p key value j`, Coq: OInsTie) - the spec accepts only an offset that keeps the keys in order.
+    # The case text (and every replay file) keeps the plain `inshint` line.
+    def note_ties(self, cases, impl_obs):
+        if not hasattr(self, '_resolved'):
+            self._resolved = {}
+        for c, o in zip(cases, impl_obs):
+            out = None
+            for k, l in enumerate(c):
+                if l.startswith('inshint ') and k < len(o):
+                    m = re.search(r' tie=(\d+)$', o[k])
+                    if m:
+                        out = out or list(c)
+                        out[k] = 'instie' + l[len('inshint'):] + ' ' + m.group(1)
+            key = '\n'.join(c)
+            if out:
+                self._resolved[key] = out
+            else:
+                self._resolved.pop(key, None)
+
+    def with_ties(self, cases):
+        r = getattr(self, '_resolved', {})
+        return [r.get('\n'.join(c), c) for c in cases] if r else cases
+
+    def run_model(self, cases, tag='model'):
+        cases = self.with_ties(cases)
+        if tag.endswith('_large') and len(cases) > 1:
+            # few, expensive cases: one process per case, 4 at a time
+            from concurrent.futures import ThreadPoolExecutor
+            with ThreadPoolExecutor(max_workers=4) as ex:
+                parts = list(ex.map(lambda ic: Check.run_model(self, [ic[1]], '%s_%d' % (tag, ic[0])), enumerate(cases)))
+            return [p[0] for p in parts]
+        return Check.run_model(self, cases, tag)
+
+    def run_spec(self, cases, tag='spec'):
+        return Check.run_spec(self, self.with_ties(cases), tag)
 
     def judge(self, cases, impl_obs, spec_obs):
         fails = []
@@ -763,6 +931,8 @@ class C04(Check):
         out.append(Stream('selfarg', selfarg_cases(thorough), note='self-assignment, copies of copies, container as its own argument'))
         out.append(Stream('sort', sort_cases(thorough), note='List::sort on all short payload sequences and on sorted / reversed / equal lists, then the list is used on'))
         out.append(Stream('hint', hint_cases(thorough), note='Map / MultiMap insert(position, k, v): every hint x every key position, own elements as arguments; Map::insert(Map)'))
+        out.append(Stream('hint-tie', tie_cases(thorough), note='MultiMap hinted insert whose landing place depends on the tree shape: runs of equal keys, every tree shape / hint that meets the case'))
+        out.append(Stream('large', large_cases(thorough), note='255 / 256 / 257 elements: Array growth, removal and append(&a[i], n) across 2^8; List::sort and the node kinds with 257 items'))
         out.append(Stream('emplace', emplace_cases(), note='PoolList::append with 0..8 arguments, integers or references to own elements'))
         out.append(Stream('capacity', capacity_cases(thorough), note='(capacity) constructors of Array / HashMap / HashSet / PoolMap'))
         out.append(Stream('wrappers', wrapper_cases(thorough), note='prepend / append(key[, value]) of List / HashMap / HashSet / PoolMap with own keys and values as arguments'))
